@@ -91,6 +91,41 @@ package model
 //@   ensures[C04] slot: err == nil ==> node.thisValue.kind == 21 && $loc == store(old($loc), rv_mapslot(node.thisValue, index), newValue)
 //@   ensures[C04] erroruntouched: err != nil ==> $loc == old($loc)
 
+// ---- how fact data is READ (C01 "on the current facts", C04 "computed on the facts as left by the preceding action") ----
+// The getters of a Go fact node return EXACTLY the addressed element / entry / field of the value the node wraps, and the child node
+// they hand out wraps exactly that value: a neighbouring element, a default for a missing one, or a stale copy would let a rule fire
+// on data that is not there. (Were uncontracted: the ast level only logged WHICH getter was called on WHICH node.)
+//@ extern pure func rv_mapindex(m RV, k RV) RV
+//@ func (node *GoValueNode) ContinueWithValue(value, identifiedAs) (vn)
+//@   serves C01 C02 C04
+//@   requires node != nil
+//@   nopanic
+//@   opt alloc=1
+//@   modifies alloc, fresh GoValueNode.*
+//@   ensures[C01,C02,C04] wraps: vn != nil && typeof(vn) == typeid(*GoValueNode) && as(vn, *GoValueNode).thisValue == value && as(vn, *GoValueNode).parentNode == node
+//@ func (node *GoValueNode) GetArrayValueAt(index) (val, err)
+//@   serves C01 C02 C04
+//@   requires node != nil
+//@   nopanic
+//@   modifies
+//@   ensures[C01,C02,C04] element: err == nil ==> (node.thisValue.kind == 17 || node.thisValue.kind == 23) && val == rv_index(node.thisValue, index)
+//@ func (node *GoValueNode) GetChildNodeByIndex(index) (vn, err)
+//@   serves C01 C02 C04
+//@   requires node != nil
+//@   opt alloc=1
+//@   modifies alloc, fresh GoValueNode.*
+//@   ensures[C01,C02,C04] element: err == nil ==> vn != nil && typeof(vn) == typeid(*GoValueNode) && as(vn, *GoValueNode).thisValue == rv_index(node.thisValue, index)
+//@ func (node *GoValueNode) GetMapValueAt(index) (val, err)
+//@   serves C01 C02 C04
+//@   requires node != nil
+//@   modifies
+//@   ensures[C01,C02,C04] entry: err == nil ==> node.thisValue.kind == 21 && val == rv_mapindex(node.thisValue, index)
+//@ func (node *GoValueNode) GetChildNodeBySelector(index) (vn, err)
+//@   serves C01 C02 C04
+//@   requires node != nil
+//@   opt alloc=1
+//@   modifies alloc, fresh GoValueNode.*
+//@   ensures[C01,C02,C04] entry: err == nil ==> vn != nil && typeof(vn) == typeid(*GoValueNode) && as(vn, *GoValueNode).thisValue == rv_mapindex(node.thisValue, index)
 // diagnostic name of a node (used in error messages only): ASSUMED effect-free and panic-free
 //@ extern func (node *GoValueNode) IdentifiedAs() (s)
 //@   nopanic
